@@ -124,6 +124,35 @@ Section Feasible.
     unfold soft_sparsity_prox. rewrite map_length, combine_length, simplex_prox_length, map_length. apply Nat.min_id.
   Qed.
 
+  (* ---- a matrix proper: every row as long as the first.  On such an input `flatwise f` is f on the flattened matrix, re-cut into rows
+     (nothing is lost), for every f that preserves the length *)
+  Definition rect (x : mat) : Prop := forall r, In r x -> length r = length (hd [] x).
+
+  Lemma rect_concat_length (x : mat) : rect x -> length (concat x) = (length x * length (hd [] x))%nat.
+  Proof using Type.
+    intros Hr. set (c := length (hd [] x)) in *.
+    assert (G : forall y : mat, (forall r, In r y -> length r = c) -> length (concat y) = (length y * c)%nat).
+    { induction y as [|r y IH]; intros Hy; [reflexivity|]. cbn [concat length]. rewrite app_length, (Hy r (or_introl eq_refl)), IH; [lia|].
+      intros r' Hr'. apply Hy. right. exact Hr'. }
+    apply G. exact Hr.
+  Qed.
+
+  Lemma chunk_concat : forall fuel c (l : list R), (length l <= fuel * c)%nat -> concat (chunk fuel c l) = l.
+  Proof using Type.
+    induction fuel as [|f IH]; intros c l Hl.
+    - destruct l; [reflexivity | cbn in Hl; lia].
+    - destruct l as [|a r]; [reflexivity|]. cbn [chunk concat]. rewrite IH; [apply firstn_skipn|].
+      rewrite skipn_length. cbn [length] in *. lia.
+  Qed.
+
+  Lemma flatwise_rect (f : list R -> list R) (x : mat) :
+    rect x -> length (f (concat x)) = length (concat x) -> concat (flatwise f x) = f (concat x).
+  Proof using Type.
+    intros Hr Hl. unfold flatwise. destruct x as [|r rs] eqn:Ex.
+    - cbn in *. symmetry. apply length_zero_iff_nil. exact Hl.
+    - rewrite <- Ex in *. apply chunk_concat. rewrite Hl, (rect_concat_length x Hr). rewrite Ex. cbn [hd]. lia.
+  Qed.
+
   Lemma nonneg_range p x : all_entries (fun a => 0 <= a) (op_c12 KNonNeg p x).
   Proof using toR toN other.
     unfold all_entries. simpl. destruct (flatwise_prefix (non_negative Rops) x) as (rest & [E | E]).
@@ -256,6 +285,24 @@ Section Feasible.
     - split; [apply hard_range|]. intros c Hc. pose proof (cols_nnz_le _ c Hc). pose proof (hard_range p v). lia.
   Qed.
 
+  (* the same two statements with the side condition "the operator's input is a matrix proper" instead of the length equation *)
+  Lemma hard_thresholding_length k (v : list R) : length (hard_thresholding Rops k v) = length v.
+  Proof using Type.
+    unfold hard_thresholding, apply_mask. rewrite map_length, combine_length. unfold hard_mask. rewrite map_length, seq_length. apply Nat.min_id.
+  Qed.
+
+  Lemma normalize_range_rect p x : rect x -> 0 < maxabs Rops (concat x) -> maxabs Rops (concat (op_c12 KNormalize p x)) = 1.
+  Proof using toR toN other.
+    intros Hr Hk. apply normalize_range; [exact Hk|]. simpl. rewrite flatwise_rect; [|exact Hr|]; unfold normalize; apply map_length.
+  Qed.
+
+  Lemma normsparsity_range_rect p x : rect x -> sumsq Rops (hard_thresholding Rops (toN p) (concat x)) <> 0 ->
+    sumsq Rops (concat (op_c12 KNormSparsity p x)) = 1 /\ (nnzR (concat (op_c12 KNormSparsity p x)) <= toN p)%nat.
+  Proof using toR toN other.
+    intros Hr Hk. apply normsparsity_range; [exact Hk|]. simpl.
+    rewrite flatwise_rect; [|exact Hr|]; unfold normalized_sparsity_with; rewrite map_length; apply hard_thresholding_length.
+  Qed.
+
   (* ---- composition with the skeleton *)
   Section CP.
     Variables (dM : mat) (msub madd : mat -> mat -> mat) (n : nat) (sp : list (kind * @zspec P)) (E : env (M := mat))
@@ -334,6 +381,24 @@ Section Feasible.
     Proof.
       intros Hin Hr. destruct (zcp_requested_in_range truthy dM op_c12 msub madd n sp E i0 fixed n_outer n_inner zero fs m _ s p run Hm Hupd Hin Hr) as (v & Ev).
       exists v. split; [exact Ev|]. rewrite Ev. apply normsparsity_range.
+    Qed.
+    Theorem cp_normalize_rect s p : In (KNormalize, s) sp -> zrequested truthy n s m p ->
+      exists v, nth m fs dM = op_c12 KNormalize p v /\
+        (rect v -> 0 < maxabs Rops (concat v) -> maxabs Rops (concat (nth m fs dM)) = 1).
+    Proof.
+      intros Hin Hr. destruct (zcp_requested_in_range truthy dM op_c12 msub madd n sp E i0 fixed n_outer n_inner zero fs m _ s p run Hm Hupd Hin Hr) as (v & Ev).
+      exists v. split; [exact Ev|]. rewrite Ev. apply normalize_range_rect.
+    Qed.
+
+    Theorem cp_normalized_sparsity_rect s p : In (KNormSparsity, s) sp -> zrequested truthy n s m p ->
+      exists v, nth m fs dM = op_c12 KNormSparsity p v /\
+        (rect v -> sumsq Rops (hard_thresholding Rops (toN p) (concat v)) <> 0 ->
+         sumsq Rops (concat (nth m fs dM)) = 1 /\ (nnzR (concat (nth m fs dM)) <= toN p)%nat /\
+         forall c, In c (cols_of Rops (nth m fs dM)) -> (nnzR c <= toN p)%nat).
+    Proof.
+      intros Hin Hr. destruct (zcp_requested_in_range truthy dM op_c12 msub madd n sp E i0 fixed n_outer n_inner zero fs m _ s p run Hm Hupd Hin Hr) as (v & Ev).
+      exists v. split; [exact Ev|]. rewrite Ev. intros Hrect Hk. destruct (normsparsity_range_rect p v Hrect Hk) as (H1 & H2).
+      split; [exact H1|]. split; [exact H2|]. intros c Hc. pose proof (cols_nnz_le _ c Hc). lia.
     Qed.
   End CP.
 End Feasible.
